@@ -977,11 +977,11 @@ def mutex_model_traces(cases):
 
 
 # ----------------------------------------------------------------------------- the checks C06–C09
-FAULTS = {"C06": True, "C07": False, "C08": False, "C09": True}  # C06: "handed exactly once" must survive failing batches
-P_FAIL = {"C06": 0.15, "C07": 0.0, "C08": 0.0, "C09": 0.3}
+FAULTS = {"C06": True, "C07": True, "C08": False, "C09": True}  # C06: "handed exactly once" must survive failing batches
+P_FAIL = {"C06": 0.15, "C07": 0.25, "C08": 0.0, "C09": 0.3}  # C07: failing batches with several members must not let the members at the primitive
 RULES = {
     "C06": "schedules of the real BatchingMutexPrimitiveJobRunner.run under the cooperative scheduler, some invocations fail (the pubs of a failed batch count as handed once): ",
-    "C07": "as C06 plus MutexSampler/MutexEstimator with the instance lock replaced: ",
+    "C07": "as C06 (including failing batches with several members) plus MutexSampler/MutexEstimator on freshly constructed wrappers, the solver constructor on bare and pre-wrapped primitives, free-running black-box runs: ",
     "C08": "schedules without primitive failure, emphasis on pre-emption (one thread frozen at each kind of synchronisation operation while the others run) and early/late timeouts: ",
     "C09": "schedules in which the controller lets primitive invocations fail (first / later / consecutive / random): ",
 }
@@ -1462,3 +1462,154 @@ def check_installed(ctx):
                 ctx.tally("installed")
                 if chain_s != want_s or chain_e != want_e:
                     ctx.violation("oracle", "installed-wrappers", f"executor={ex_kind} mutually_exclusive={mutual}: sampler chain {chain_s} (expected {want_s}), estimator chain {chain_e} (expected {want_e})", dict(installed=[ex_kind, mutual, with_est]))
+
+
+def _chain(obj, attr, limit=12):
+    out = []
+    while obj is not None and len(out) < limit:
+        out.append(obj)
+        obj = obj.__dict__.get(attr) if hasattr(obj, "__dict__") else None
+    return out
+
+
+def check_installed_prewrapped(ctx):
+    """C07, solver constructor on primitives that are ALREADY wrapped (possibly shared with another solver): the object
+    finally handed to the evaluators must still route every call through the ORIGINAL wrapper objects (identity), i.e. the
+    constructor wraps what it is given (model: Batch/Mutex.v `install`, theorem C07_install_keeps_wrappers).  Then two
+    solvers sharing one pre-wrapped fake primitive are used from two threads: the fake primitive must never be entered
+    twice at once."""
+    import time as _time
+    from concurrent.futures import ThreadPoolExecutor
+
+    from dask.distributed import Client
+    from qiskit import QuantumCircuit
+    from qiskit.primitives import StatevectorEstimator, StatevectorSampler
+    from qiskit.quantum_info import SparsePauliOp
+    from qiskit.transpiler.preset_passmanagers import generate_preset_pass_manager
+
+    mp = restore_real()
+    import queasars.minimum_eigensolvers.base.evolving_ansatz_minimum_eigensolver as eam
+    from queasars.circuit_evaluation.configured_primitives import ConfiguredEstimatorV2, ConfiguredSamplerV2
+    from queasars.circuit_evaluation.transpiling_primitives import TranspilingEstimatorV2, TranspilingSamplerV2
+
+    pm = generate_preset_pass_manager(optimization_level=0)
+
+    def configuration(sampler, estimator, ex_kind, mutual):
+        pool = ThreadPoolExecutor(max_workers=1) if ex_kind == "pool" else Client.__new__(Client)
+        cfg = eam.EvolvingAnsatzMinimumEigensolverConfiguration(
+            population_initializer=lambda n: None, evolutionary_operators=[], configured_sampler=ConfiguredSamplerV2(sampler, 10),
+            configured_estimator=ConfiguredEstimatorV2(estimator, 0.1) if estimator is not None else None, pass_manager=pm, max_generations=1,
+            max_circuit_evaluations=None, termination_criterion=None, parallel_executor=pool, mutually_exclusive_primitives=mutual)
+        return cfg, pool
+
+    prefix = {("pool", True): ["Transpiling", "BatchingMutex"], ("pool", False): ["Transpiling"], ("dask", True): ["Transpiling", "Mutex"], ("dask", False): ["Transpiling"]}
+    shapes = ["mutex", "batching", "transpiling(mutex)", "mutex(batching)"]
+    for shape_ in shapes:
+        for ex_kind in ("pool", "dask"):
+            for mutual in (True, False):
+                raw_s, raw_e = StatevectorSampler(), StatevectorEstimator()
+
+                def pre(kind, raw):
+                    S = kind == "s"
+                    M = mp.MutexSampler if S else mp.MutexEstimator
+                    B = mp.BatchingMutexSampler if S else mp.BatchingMutexEstimator
+                    T = TranspilingSamplerV2 if S else TranspilingEstimatorV2
+                    if shape_ == "mutex":
+                        return M(raw)
+                    if shape_ == "batching":
+                        return B(raw, None)
+                    if shape_ == "transpiling(mutex)":
+                        return T(M(raw), pm)
+                    return M(B(raw, None))
+
+                case = dict(installed=["prewrapped", shape_, ex_kind, mutual])
+                try:
+                    given_s, given_e = pre("s", raw_s), pre("e", raw_e)
+                    orig_s, orig_e = _chain(given_s, "_sampler"), _chain(given_e, "_estimator")
+                    cfg, pool = configuration(given_s, given_e, ex_kind, mutual)
+                    try:
+                        eam.EvolvingAnsatzMinimumEigensolver(cfg)
+                    finally:
+                        if ex_kind == "pool":
+                            pool.shutdown(wait=False)
+                    fin_s, fin_e = _chain(cfg.configured_sampler.sampler, "_sampler"), _chain(cfg.configured_estimator.estimator, "_estimator")
+                except Exception as e:
+                    ctx.violation("oracle", "installed-exception", f"solver constructor on pre-wrapped primitives raised {type(e).__name__}: {e}", case)
+                    continue
+                ctx.case(case["installed"], True)
+                ctx.tally("installed-prewrapped")
+                for what, orig, fin, suffix in (("sampler", orig_s, fin_s, "Sampler"), ("estimator", orig_e, fin_e, "Estimator")):
+                    ids = [id(x) for x in fin]
+                    kept = all(id(o) in ids for o in orig) and [x for x in fin if id(x) in {id(o) for o in orig}] == orig
+                    names = [type(x).__name__ for x in fin]
+                    if not kept:
+                        ctx.violation("oracle", "installed-unwraps", f"executor={ex_kind} mutually_exclusive={mutual}, given {what} chain {[type(o).__name__ for o in orig]}: the {what} handed to the evaluators is {names} and no longer routes through the original wrapper objects", case)
+                    else:
+                        want = [n + suffix + ("V2" if n == "Transpiling" else "") for n in prefix[(ex_kind, mutual)]] + [type(o).__name__ for o in orig]
+                        if names != want:
+                            ctx.violation("correspondence", "installed-model", f"wrapper stack {names} differs from the model's install: {want}", case)
+
+    # ---- two solvers share one pre-wrapped fake primitive and are used from two threads
+    for kind in ("sampler", "estimator"):
+        for mutual in (True, False):
+            st = dict(in_use=0, overlaps=0, uses=0, errors=[])
+            guard = threading.Lock()
+
+            class Prim:
+                def run(self, pubs, *a, **kw):
+                    with guard:
+                        if st["in_use"]:
+                            st["overlaps"] += 1
+                        st["in_use"] += 1
+                        st["uses"] += 1
+                    try:
+                        list(pubs)
+                        _time.sleep(0.002)
+                    finally:
+                        with guard:
+                            st["in_use"] -= 1
+                    return ("job",)
+
+            case = dict(installed=["shared", kind, mutual])
+            try:
+                shared = (mp.MutexSampler if kind == "sampler" else mp.MutexEstimator)(Prim())
+                solvers = []
+                for _ in range(2):
+                    other = StatevectorEstimator() if kind == "sampler" else StatevectorSampler()
+                    cfg, _pool = configuration(shared if kind == "sampler" else other, shared if kind == "estimator" else (other if kind == "sampler" else None), "dask", mutual)
+                    eam.EvolvingAnsatzMinimumEigensolver(cfg)
+                    solvers.append(cfg)
+                stop = _time.time() + 0.4
+                barrier = threading.Barrier(2)
+
+                def body(cfg):
+                    qc = QuantumCircuit(1, 1)
+                    qc.measure(0, 0)
+                    try:
+                        barrier.wait(5)
+                    except Exception:
+                        pass
+                    while _time.time() < stop:
+                        try:
+                            if kind == "sampler":
+                                cfg.configured_sampler.sampler.run([qc], shots=10)
+                            else:
+                                cfg.configured_estimator.estimator.run([(QuantumCircuit(1), SparsePauliOp("Z"))], precision=0.1)
+                        except Exception as e:
+                            st["errors"].append(repr(e)[:200])
+                            break
+
+                ths = [threading.Thread(target=body, args=(c,), daemon=True) for c in solvers]
+                for t in ths:
+                    t.start()
+                for t in ths:
+                    t.join(30)
+            except Exception as e:
+                st["errors"].append("setup: " + repr(e)[:200])
+            ctx.case(case["installed"], True)
+            ctx.tally("installed-shared")
+            ctx.notes.setdefault("shared_prewrapped", {})[f"{kind}:{mutual}"] = dict(uses=st["uses"], overlaps=st["overlaps"], errors=st["errors"][:1])
+            if st["overlaps"]:
+                ctx.violation("oracle", "shared-wrapper-overlap", f"two solvers configured with one shared Mutex{kind.capitalize()} (mutually_exclusive_primitives={mutual}) used from two threads: {st['overlaps']} of {st['uses']} run() calls of the wrapped primitive began while another was in progress", case)
+            elif st["errors"]:
+                ctx.violation("oracle", "shared-wrapper-error", f"two solvers sharing a pre-wrapped {kind}: {st['errors'][0]}", case)
